@@ -109,9 +109,13 @@ func normMsg(v reflect.Value) (reflect.Value, error) {
 	return out, nil
 }
 
-func isBytes(t reflect.Type) bool { return t.Kind() == reflect.Slice && t.Elem().Kind() == reflect.Uint8 }
+func isBytes(t reflect.Type) bool {
+	return t.Kind() == reflect.Slice && t.Elem().Kind() == reflect.Uint8
+}
 
-func isMsgPtr(t reflect.Type) bool { return t.Kind() == reflect.Ptr && t.Elem().Kind() == reflect.Struct }
+func isMsgPtr(t reflect.Type) bool {
+	return t.Kind() == reflect.Ptr && t.Elem().Kind() == reflect.Struct
+}
 
 // normField copies a singular/repeated/map field.
 func normField(src, dst reflect.Value, optional bool) error {
